@@ -1089,9 +1089,26 @@ type shutdownReport struct {
 	InFlight     map[string]int  `json:"in_flight"`     // requests whose header block was completed AFTER close(closed): HTTP status answered (0 = no answer in 3 s)
 	ReturnedMs   int             `json:"returned_ms"`   // relay.Relay returned this long after close(closed) (-1 = not within 6 s)
 	HandlersLeft int             `json:"handlers_left"` // goroutines still inside an access API handler at the end
+	Leftover     []leftover      `json:"leftover"`      // goroutines of the relay's packages still there at the end (per-connection pumps and HTTP handlers are counted above)
 	Running      []string        `json:"running"`       // relay functions of goroutines found running/runnable
 	Left         map[string]int  `json:"left"`          // relay goroutines left, by creation site
 	Err          string          `json:"err,omitempty"`
+}
+
+// leftover is one goroutine of the relay's own packages found after relay.Relay has returned
+type leftover struct {
+	Func    string `json:"func"`    // innermost function of the relay's packages on its stack
+	State   string `json:"state"`   // what the runtime says it is doing (select, chan receive, running, ...)
+	Created string `json:"created"` // creation site
+}
+
+// outliveShutdown: the goroutines that are known to outlive a shutdown request on the code as it is
+// (finding F21): they are parked, not spinning. Anything else, or one of these not parked, is a violation.
+var outliveShutdown = map[string]string{
+	"crossbar.(*Hub).run":            "select",       // no shutdown case in its select
+	"ttlcode.(*CodeStore).keepClean": "select",       // listens on its own `closed`, which relay.Relay never closes
+	"restapi.handleInterrupt":        "chan receive", // go-swagger's generated signal loop ranges over a channel nobody closes
+	"restapi.handleInterrupt.func1":  "chan receive",
 }
 
 func cpuMs() int {
@@ -1259,7 +1276,35 @@ loop:
 	for _, g := range strings.Split(goroutineDump(), "\n\n") {
 		if strings.Contains(g, "relay/internal/access.") && strings.Contains(g, "net/http.(*conn).serve") {
 			rep.HandlersLeft++
+			continue
 		}
+		if strings.Contains(g, "crossbar.(*Client).readPump") || strings.Contains(g, "crossbar.(*Client).writePump") || strings.Contains(g, "crossbar.serveWs.func") {
+			continue // counted as per-connection goroutines
+		}
+		lines := strings.Split(g, "\n")
+		fn := ""
+		for _, ln := range lines[1:] {
+			if strings.HasPrefix(ln, "github.com/practable/relay/internal/") {
+				fn = strings.TrimPrefix(ln, "github.com/practable/relay/internal/")
+				fn = fn[strings.LastIndex(fn, "/")+1:]
+				if i := strings.LastIndex(fn, "("); i > 0 {
+					fn = fn[:i]
+				}
+				break
+			}
+		}
+		if fn == "" {
+			continue
+		}
+		st, site := "", ""
+		if a, b := strings.Index(lines[0], "["), strings.Index(lines[0], "]"); a >= 0 && b > a {
+			st = strings.SplitN(lines[0][a+1:b], ",", 2)[0]
+		}
+		if i := strings.LastIndex(g, "created by "); i >= 0 {
+			site = strings.Fields(g[i+len("created by "):])[0]
+			site = site[strings.LastIndex(site, "/")+1:]
+		}
+		rep.Leftover = append(rep.Leftover, leftover{Func: fn, State: st, Created: site})
 	}
 	if stalled != nil {
 		// data sent to a socket the relay has closed is answered with a reset: a later write fails
@@ -1712,6 +1757,26 @@ func main() {
 			if o.rep.HandlersLeft > 0 {
 				res.Violate(lib.Violation{Clause: "handler-left-after-shutdown", Case: -1, Key: "handler-left-after-shutdown",
 					Detail: fmt.Sprintf("%d goroutines are still inside an access API handler seconds after close(closed) (answers to the in-flight requests: %v)", o.rep.HandlersLeft, o.rep.InFlight), Replay: hist})
+			}
+			// what is still there of the relay's own packages after relay.Relay has returned
+			var known []string
+			for _, l := range o.rep.Leftover {
+				want, ok := outliveShutdown[l.Func]
+				switch {
+				case ok && l.State == want && o.rep.CPUAfterMs <= 500:
+					known = append(known, fmt.Sprintf("%s [%s] (created by %s)", l.Func, l.State, l.Created))
+				case ok:
+					res.Violate(lib.Violation{Clause: "service-outlives-shutdown", Case: -1, Key: "service-outlives-shutdown:not-parked:" + l.Func,
+						Detail: fmt.Sprintf("after relay.Relay returned, %s is still there and NOT parked: state %q, process CPU in the second sampled after the shutdown request %d ms", l.Func, l.State, o.rep.CPUAfterMs), Replay: hist})
+				default:
+					res.Violate(lib.Violation{Clause: "service-outlives-shutdown", Case: -1, Key: "service-outlives-shutdown:" + l.Func,
+						Detail: fmt.Sprintf("after relay.Relay returned a goroutine of the relay is still there: %s [%s], created by %s", l.Func, l.State, l.Created), Replay: hist})
+				}
+			}
+			if len(known) > 0 && o.rep.ReturnedMs >= 0 {
+				sort.Strings(known)
+				res.Violate(lib.Violation{Clause: "service-outlives-shutdown", Case: -1, Key: "F21:hub-run-and-code-sweeper-outlive-shutdown",
+					Detail: fmt.Sprintf("%d ms after close(closed) relay.Relay has returned, yet these goroutines of the relay are still there (parked, not spinning: %d ms of CPU in the sampled second): %s", o.rep.ReturnedMs, o.rep.CPUAfterMs, strings.Join(known, "; ")), Replay: hist})
 			}
 			if o.rep.ReturnedMs < 0 {
 				res.Violate(lib.Violation{Clause: "relay-did-not-return", Case: -1, Key: "relay-did-not-return",
